@@ -200,6 +200,18 @@ func ParseCopySourceRange(size int64, acceptRange string) (int64, int64, error) 
 // uploads, would never be listed and would be destroyed with the bucket.
 const ReservedKeyPrefix = ".sgwtmp"
 
+// IsAliasedKey reports whether the object key has an empty path segment
+// other than a single trailing one (the spelling of a directory object): a
+// leading or doubled separator. Joined to the bucket directory such a key
+// names the same file as the key without it, so "dir//obj" would read,
+// replace or delete the object "dir/obj" while access decisions, listings
+// and notifications are about a different name. Like "." and ".." segments
+// these are not resolved but refused.
+func IsAliasedKey(key string) bool {
+	key = strings.TrimSuffix(key, "/")
+	return strings.HasPrefix(key, "/") || strings.HasSuffix(key, "/") || strings.Contains(key, "//")
+}
+
 // IsReservedKey reports whether the object key lies in the reserved namespace.
 // Leading separators do not count: joined to the bucket directory they
 // vanish ("/.sgwtmp/x" names the same file as ".sgwtmp/x").
@@ -241,7 +253,7 @@ func ParseCopySource(copySourceHeader string) (string, string, string, error) {
 			return "", "", "", s3err.GetAPIError(s3err.ErrInvalidCopySource)
 		}
 	}
-	if IsReservedKey(srcObject) {
+	if IsReservedKey(srcObject) || IsAliasedKey(srcObject) {
 		return "", "", "", s3err.GetAPIError(s3err.ErrInvalidCopySource)
 	}
 	if versionId == "." || versionId == ".." || strings.ContainsAny(versionId, "/\x00") {
